@@ -82,6 +82,7 @@ static HashEntry *get_or_insert_entry(HashMap *map, char *key, int keylen) {
   }
 
   uint64_t hash = fnv_hash(key, keylen);
+  HashEntry *tomb = NULL;
 
   for (int i = 0; i < map->capacity; i++) {
     HashEntry *ent = &map->buckets[(hash + i) % map->capacity];
@@ -89,16 +90,21 @@ static HashEntry *get_or_insert_entry(HashMap *map, char *key, int keylen) {
     if (match(ent, key, keylen))
       return ent;
 
+    // Remember the first tombstone, but keep probing: the key may
+    // still exist further down the probe sequence.
     if (ent->key == TOMBSTONE) {
-      ent->key = key;
-      ent->keylen = keylen;
-      return ent;
+      if (!tomb)
+        tomb = ent;
+      continue;
     }
 
     if (ent->key == NULL) {
+      if (tomb)
+        ent = tomb;
+      else
+        map->used++;
       ent->key = key;
       ent->keylen = keylen;
-      map->used++;
       return ent;
     }
   }
